@@ -28,7 +28,7 @@ RULE = ("cell = (base kind in {measure, density}, R in 1..4 with per-component l
         "(value, mass one, mean, variance); tolerance 1e-8 x untruncated integral of |x|^k u; "
         "non-trivial: all; distinct = cell tuple")
 
-REGIMES = ("two-sided", "lower", "upper", "far-tail", "asymmetric")
+REGIMES = ("two-sided", "lower", "upper", "far-tail", "asymmetric", "moderate-tail")
 
 
 def cells(tier, seed):
@@ -41,7 +41,8 @@ def cells(tier, seed):
                 # the tail regime spans 4.5 .. 9 sigma: several draws so that every decade of the
                 # truncated mass (1e-6 .. 1e-19) is visited
                 out.append({"mk": mk, "R": R, "regime": reg,
-                            "reps": reps * (3 if reg == "far-tail" else 1), "group": [mk, R, reg],
+                            "reps": reps * (3 if reg in ("far-tail", "moderate-tail") else 1),
+                            "group": [mk, R, reg],
                             "cost": 1.0})
     return out
 
@@ -93,6 +94,14 @@ def limits(rng, reg, mu, sd):
         one = rng.integers(0, 2, R).astype(bool)
         hi = np.where(one & (s > 0), np.inf, hi)
         lo = np.where(one & (s < 0), -np.inf, lo)
+    elif reg == "moderate-tail":
+        # one limit 2.5 .. 4.5 sd away from the mean on either side (where cdf implementations
+        # switch between formulas), the other one infinite or inside
+        s = rng.choice([-1.0, 1.0], R)
+        c = mu + s * rng.uniform(2.5, 4.5, R) * sd
+        kind = rng.integers(0, 3, R)
+        lo = np.where(kind == 0, c, np.where(kind == 1, -np.inf, np.minimum(c, mu)))
+        hi = np.where(kind == 0, np.inf, np.where(kind == 1, c, np.maximum(c, mu)))
     else:  # asymmetric about the mode, both inside
         lo = mu - rng.uniform(0.05, 0.5, R) * sd
         hi = mu + rng.uniform(1.5, 4.0, R) * sd
@@ -144,6 +153,20 @@ def run_cell(cell, rec, seed):
         if got is not None:
             rec.close("u(x) inside, 0 outside", got, exp_val, ns=np.exp(lu) * orc.factor_ln_abs(
                 t.Lambda, t.nu, t.ln_beta, xs) + 1e-280, detail=info, mech="call-value")
+        # ---- element-wise evaluation: component r at its own point, a mixed batch of points
+        # inside and outside their intervals
+        a_f = np.where(np.isfinite(lo[:, 0]), lo[:, 0], mu - 3 * sd)
+        b_f = np.where(np.isfinite(hi[:, 0]), hi[:, 0], mu + 3 * sd)
+        pick = rng.integers(0, 3, R)
+        xe = np.where(pick == 0, 0.5 * (a_f + b_f), np.where(pick == 1, a_f - 0.2 * sd,
+                                                              b_f + 0.2 * sd))[:, None]
+        lue = np.diag(orc.factor_ln(t.Lambda, t.nu, t.ln_beta, xe))
+        ins_e = (xe[:, 0] >= lo[:, 0]) & (xe[:, 0] <= hi[:, 0])
+        ge = lc.call(rec, "__call__[element_wise]", lambda: T(J(xe), element_wise=True), info)
+        if ge is not None:
+            rec.close("element-wise: u(x_r) inside, 0 outside", ge, np.where(ins_e, np.exp(lue), 0.0),
+                      ns=np.exp(lue) * np.diag(orc.factor_ln_abs(t.Lambda, t.nu, t.ln_beta, xe))
+                      + 1e-280, detail=dict(info, inside=ins_e), mech="call-value-element-wise")
         # ---- integrals
         for key, k in (("1", 0), ("x", 1), ("x**2", 2)):
             g = lc.call(rec, f"integrate({key})", lambda: T.integrate(key), info)
@@ -197,6 +220,14 @@ def run_cell(cell, rec, seed):
                                   t.Lambda, t.nu, t.ln_beta, xin) + (sc[:, 0] / Z)[:, None]),
                               detail=d2,
                               mech=f"normalised-value:{name}:{mk}")
+                gve = lc.call(rec, "__call__[element_wise]",
+                              lambda: P(J(xe), element_wise=True), d)
+                if gve is not None:
+                    rec.close("normalised density, element-wise", gve,
+                              np.where(ins_e, np.exp(lue) / Z, 0.0),
+                              ns=np.exp(lue) / Z * (np.diag(orc.factor_ln_abs(
+                                  t.Lambda, t.nu, t.ln_beta, xe)) + sc[:, 0] / Z) + 1e-280,
+                              detail=d, mech=f"normalised-value-element-wise:{name}")
                 one = lc.call(rec, "integrate(1)", lambda: P.integrate("1"), d)
                 if one is not None:
                     rec.close("normalised density: mass one", np.asarray(one).reshape(R),
